@@ -582,6 +582,8 @@ class Gen:
                     contract, attrs = c, a
                     break
             oblig = prefix + '.' + f.name
+            if '$VARIANT' in contract:
+                contract = contract.replace('$VARIANT', self.variant_of_hook(f.name))
             skipbody = 'skipbody' in attrs
             attrs = [a for a in attrs if a != 'skipbody']
             if mode == 'bodies' and (f.body_open is None or skipbody):
@@ -614,6 +616,29 @@ class Gen:
             c_hi = len(self.out)
             self.emit_segs(self.body_with_insertions(src, f.body_open, f.end, {}, [], rel), rel)
             self.end_block(c_lo, c_hi, twin_ok=False)
+
+    def variant_of_hook(self, method):
+        """visit_call_indirect[_mut] -> CallIndirect, using the variant names of the expanded `Instr` enum"""
+        if not hasattr(self, '_variants'):
+            src = self.source('@expanded')
+            names = {}
+
+            def walk(lo, hi):
+                for it in src.items(lo, hi):
+                    if it.kw == 'enum' and it.name == 'Instr':
+                        body = src.text[src.toks[it.body_open].start + 1:src.toks[it.end].start]
+                        for m in re.finditer(r'\b([A-Z]\w*)\s*\(', strip_inner_attrs(body)):
+                            v = m.group(1)
+                            snake = re.sub(r'(?<!^)([A-Z])', r'_\1', v).lower()
+                            names[snake] = v
+                    elif it.kw == 'mod' and it.body_open is not None:
+                        walk(it.body_open + 1, src.match[it.body_open])
+            walk(0, len(src.toks))
+            self._variants = names
+        key = re.sub(r'^visit_', '', re.sub(r'_mut$', '', method))
+        if key not in self._variants:
+            raise LostAnchor('no Instr variant for hook ' + method)
+        return self._variants[key]
 
     def named_sig_decl(self, src, f):
         # a declaration ends with `;` : reuse named_sig on a pseudo item whose "body_open" is the `;`
